@@ -147,6 +147,11 @@ pub fn build_settings(s: &SettingsDesc) -> TypeSpaceSettings {
     for r in &s.replaces {
         settings.with_replacement(&r.name, &r.with, std::iter::empty::<TypeSpaceImpl>());
     }
+    for c in &s.conversions {
+        if let Ok(schema) = serde_json::from_value::<schemars::schema::SchemaObject>(c.schema.clone()) {
+            settings.with_conversion(schema, &c.type_name, std::iter::empty::<TypeSpaceImpl>());
+        }
+    }
     settings
 }
 
@@ -397,6 +402,8 @@ struct Session<'d> {
     latest_delivery: BTreeMap<usize, CallResult>,
     is_variant: bool,
     step_now: usize,
+    /// uses_chrono / uuid / serde_json / regress as last observed
+    last_uses: [bool; 4],
 }
 
 fn op_sources<'a>(ops: &'a [Op], idx: usize) -> &'a Op {
@@ -434,6 +441,7 @@ impl<'d> Session<'d> {
             latest_delivery: BTreeMap::new(),
             is_variant: false,
             step_now: 0,
+            last_uses: [false; 4],
         }
     }
 
@@ -732,6 +740,26 @@ impl<'d> Session<'d> {
                                         format!("{kind}: {what}"),
                                         "no duplicate or unresolved names in the output",
                                     );
+                                }
+                            }
+                            // the dependency flags (uses_chrono() ...) are observed, not judged:
+                            // no listed property speaks about them (C01 counts serde_json among
+                            // the dependencies the output may always use)
+                            if self.desc_settings.replaces.is_empty() && self.desc_settings.conversions.is_empty() {
+                                let flags = [
+                                    ("chrono", self.ts.uses_chrono()),
+                                    ("uuid", self.ts.uses_uuid()),
+                                    ("serde_json", self.ts.uses_serde_json()),
+                                    ("regress", self.ts.uses_regress()),
+                                ];
+                                for (i, (krate, flag)) in flags.iter().enumerate() {
+                                    if a.contains(&format!(":: {krate} ::")) && !flag {
+                                        self.out.probe(&format!("observed.output_names_crate_but_uses_flag_false.{krate}"));
+                                    }
+                                    if self.last_uses[i] && !flag {
+                                        self.out.probe(&format!("observed.uses_flag_lost.{krate}"));
+                                    }
+                                    self.last_uses[i] = *flag;
                                 }
                             }
                             // I7 on the OUTPUT: whatever the API says about Boxes, the
